@@ -71,6 +71,17 @@ impl<'a> RtcpPacket for TransportFeedback<'a> {
 impl<'a> RtcpPacketParser<'a> for TransportFeedback<'a> {
     fn parse(data: &'a [u8]) -> Result<Self, RtcpParseError> {
         parser::check_packet::<Self>(data)?;
+
+        if let Some(padding) = parser::parse_padding(data) {
+            let min_len = Self::MIN_PACKET_LEN + padding as usize;
+            if data.len() < min_len {
+                return Err(RtcpParseError::Truncated {
+                    expected: min_len,
+                    actual: data.len(),
+                });
+            }
+        }
+
         Ok(Self { data })
     }
 
@@ -139,7 +150,9 @@ impl<'a> TransportFeedback<'a> {
         if parser::parse_count(self.data) != F::FCI_FORMAT {
             return Err(RtcpParseError::WrongImplementation);
         }
-        F::parse(&self.data[12..])
+        // the FCI ends where the (optional) padding starts, see the check in `parse()`
+        let padding = self.padding().unwrap_or(0) as usize;
+        F::parse(&self.data[12..self.data.len() - padding])
     }
 }
 
@@ -268,6 +281,17 @@ impl<'a> RtcpPacket for PayloadFeedback<'a> {
 impl<'a> RtcpPacketParser<'a> for PayloadFeedback<'a> {
     fn parse(data: &'a [u8]) -> Result<Self, RtcpParseError> {
         parser::check_packet::<Self>(data)?;
+
+        if let Some(padding) = parser::parse_padding(data) {
+            let min_len = Self::MIN_PACKET_LEN + padding as usize;
+            if data.len() < min_len {
+                return Err(RtcpParseError::Truncated {
+                    expected: min_len,
+                    actual: data.len(),
+                });
+            }
+        }
+
         Ok(Self { data })
     }
 
@@ -335,7 +359,9 @@ impl<'a> PayloadFeedback<'a> {
         if parser::parse_count(self.data) != F::FCI_FORMAT {
             return Err(RtcpParseError::WrongImplementation);
         }
-        F::parse(&self.data[12..])
+        // the FCI ends where the (optional) padding starts, see the check in `parse()`
+        let padding = self.padding().unwrap_or(0) as usize;
+        F::parse(&self.data[12..self.data.len() - padding])
     }
 }
 
